@@ -274,6 +274,71 @@ func TestErrorsReal(t *testing.T) {
 			}
 		})
 	}
+	// --- a dial in progress to a server that accepted the connection and says nothing (no SP header): every other
+	// call on the dialer and on the socket still completes, Close included
+	for _, tn := range []string{"tcp", "ipc", "tls+tcp", "ws"} {
+		run("silent-server-"+tn, func(e *errScn) {
+			var nl net.Listener
+			var err error
+			var addr string
+			if tn == "ipc" {
+				p := fmt.Sprintf("%s/verif-s-%d.sock", os.TempDir(), os.Getpid())
+				os.Remove(p)
+				nl, err = net.Listen("unix", p)
+				addr = "ipc://" + p
+			} else {
+				nl, err = net.Listen("tcp", "127.0.0.1:0")
+				if err == nil {
+					addr = tn + "://" + nl.Addr().String()
+					if tn == "ws" {
+						addr += "/x"
+					}
+				}
+			}
+			if err != nil {
+				panic(err)
+			}
+			defer nl.Close()
+			accepted := make(chan net.Conn, 4)
+			go func() {
+				for {
+					c, err := nl.Accept()
+					if err != nil {
+						return
+					}
+					accepted <- c
+				}
+			}()
+			q, _ := req.NewSocket()
+			defer q.Close()
+			_ = q.SetOption(mangos.OptionDialAsynch, true)
+			_ = q.SetOption(mangos.OptionReconnectTime, 50*time.Millisecond)
+			opts := map[string]interface{}{}
+			if tn == "tls+tcp" {
+				opts[mangos.OptionTLSConfig] = &tls.Config{InsecureSkipVerify: true}
+			}
+			d, err := q.NewDialer(addr, opts)
+			if err != nil {
+				panic(err)
+			}
+			e.call("d", "dial", ok, d.Dial)
+			select {
+			case c := <-accepted:
+				defer c.Close()
+			case <-time.After(3 * time.Second):
+				e.r.Emit("ecall", "obj", "d", "op", "connect", "r", "no attempt", "hung", true, "want", ok)
+				return
+			}
+			time.Sleep(50 * time.Millisecond) // the dialer is now waiting for the server's part of the handshake
+			any := []string{"ok", "ErrBadOption", "ErrBadProperty", "ErrBadValue"}
+			e.call("d", "getopt-during-handshake", any, func() error { _, err := d.GetOption(mangos.OptionMaxRecvSize); return err })
+			e.call("d", "setopt-during-handshake", any, func() error { return d.SetOption(mangos.OptionMaxRecvSize, 4096) })
+			e.call("q", "setopt-during-handshake", any, func() error { return q.SetOption(mangos.OptionMaxRecvSize, 8192) })
+			e.call("q", "getopt-during-handshake", any, func() error { _, err := q.GetOption(mangos.OptionMaxRecvSize); return err })
+			e.call("d", "close-during-handshake", ok, d.Close)
+			e.call("q", "close-during-handshake", ok, q.Close)
+		})
+	}
 	// --- a connection lost while the dialer's own call is still inside the pipe event hook (the hook closes the
 	// pipe in Attaching, or the peer drops it during Attached, and the hook takes longer than the reconnect time):
 	// the dialer still comes back
